@@ -163,7 +163,8 @@ def deliverCont (k : HKey) (c : Id) : CEvent → Delivered
   | .set r a => .set k c r a
 
 /-- `for notifier in self.notifiers: notifier(…)` on the live list: position `i`,
-re-reading the list each time.  `fuel` bounds the iteration (every notifier a
+re-reading the list each time.  `fuel` (`runCont`: length of the list at the start + 4096; `err = some .other`
+when it runs out — the harness stays far below: the largest growth seen is 1 → 137) bounds the iteration (every notifier a
 maintainer appends carries a strictly smaller graph, so the real loop ends). -/
 def notifyCont (E : Env) (h : Heap) (c : Id) (ev : CEvent) :
     Nat → Nat → Hooks → List Delivered → Hooks × List Delivered × Option Exc
@@ -246,7 +247,7 @@ def runCont (E : Env) (st : St) (h' : Heap) (c : Id) (ev : Option CEvent) : Out 
   match ev with
   | none => ⟨⟨h', st.H⟩, [], none⟩
   | some ev =>
-    let r := notifyCont E h' c ev ((st.H.get (.cont c)).length + 64) 0 st.H []
+    let r := notifyCont E h' c ev ((st.H.get (.cont c)).length + 4096) 0 st.H []
     ⟨⟨h', r.1⟩, r.2.1, r.2.2⟩
 
 def skip (st : St) : Out := ⟨st, [], some .other⟩
